@@ -234,7 +234,7 @@ struct P3Prep {
 
 impl VdafVisitor for P3Prep {
     type Out = Prepared;
-    fn visit<T, P>(self, vdaf: Prio3<T, P, 32>) -> Prepared
+    fn visit<T, P>(self, vdaf: Prio3<T, P, 32>, _typ: T) -> Prepared
     where
         T: TypeBridge + 'static,
         T::Field: FieldBig,
